@@ -106,11 +106,11 @@ func (g *Gen) RR(name string, t uint16, svcMask int) RR {
 	switch t {
 	case TypeA:
 		var a A
-		copy(a[:], g.Bytes(4))
+		copy(a[:], g.IP4())
 		rr.Data = a
 	case TypeAAAA:
 		var a AAAA
-		copy(a[:], g.Bytes(16))
+		copy(a[:], g.IP6())
 		rr.Data = a
 	case TypeNS, TypeCNAME, TypePTR:
 		rr.Data = Name(g.DataName())
@@ -177,9 +177,67 @@ func (g *Gen) alpnIDs() []string {
 func (g *Gen) hints(sz int) [][]byte {
 	var out [][]byte
 	for i := 0; i < 1+g.Rng.IntN(4); i++ {
-		out = append(out, g.Bytes(sz))
+		if sz == 4 {
+			out = append(out, g.IP4())
+		} else {
+			out = append(out, g.IP6())
+		}
 	}
 	return out
+}
+
+// IP4 draws a 4-byte address: random, or (1 in 4) one of the special values
+// 0.0.0.0, 255.255.255.255, 127.0.0.1.
+func (g *Gen) IP4() []byte {
+	if g.Rng.IntN(4) != 0 {
+		return g.Bytes(4)
+	}
+	return [][]byte{{0, 0, 0, 0}, {255, 255, 255, 255}, {127, 0, 0, 1}}[g.Rng.IntN(3)]
+}
+
+// IP6 draws a 16-byte address: random, or (1 in 3) one of the special values
+// ::, ::1, ::ffff:a.b.c.d (IPv4-mapped, RFC 4291 2.5.5.2), 64:ff9b::a.b.c.d
+// (RFC 6052), fe80::1, all ones. A uniformly random address never falls into
+// the mapped prefix, which software likes to treat as "really IPv4".
+func (g *Gen) IP6() []byte {
+	if g.Rng.IntN(3) != 0 {
+		return g.Bytes(16)
+	}
+	b := make([]byte, 16)
+	switch g.Rng.IntN(6) {
+	case 0:
+	case 1:
+		b[15] = 1
+	case 2:
+		b[10], b[11] = 0xff, 0xff
+		copy(b[12:], g.Bytes(4))
+		if g.Rng.IntN(3) == 0 {
+			copy(b[12:], []byte{192, 0, 2, 1})
+		}
+	case 3:
+		b[1], b[2], b[3] = 0x64, 0xff, 0x9b
+		copy(b[12:], g.Bytes(4))
+	case 4:
+		b[0], b[1], b[15] = 0xfe, 0x80, 1
+	default:
+		for i := range b {
+			b[i] = 0xff
+		}
+	}
+	return b
+}
+
+// IsIPv4Mapped reports whether the 16-byte address b lies in ::ffff:0:0/96.
+func IsIPv4Mapped(b []byte) bool {
+	if len(b) != 16 || b[10] != 0xff || b[11] != 0xff {
+		return false
+	}
+	for _, c := range b[:10] {
+		if c != 0 {
+			return false
+		}
+	}
+	return true
 }
 
 // SvcBasic draws RDATA whose parameters are exactly the keys selected by mask
